@@ -484,6 +484,27 @@ def add_cfgs(prog, rng, p_item=0.3):
     return n
 
 
+def underscore_fields(prog, rng, p_field=0.3):
+    """Struct fields whose Rust name starts with an underscore (`_reserved`, `_pad`: legal, and part of the repr(C) layout like any other
+    field). Signature-only workloads. Returns the number of fields renamed."""
+    n = 0
+    for t in prog.types():
+        if t.kind not in ("struct", "outstruct"):
+            continue
+        new_fields = []
+        for fn, ft in t.fields:
+            if rng.random() < p_field and not fn.startswith("_"):
+                nn = rng.choice(["_%s", "_reserved_%s", "_pad_%s", "__%s"]) % fn
+                if fn in t.field_attrs:
+                    t.field_attrs[nn] = t.field_attrs.pop(fn)
+                new_fields.append((nn, ft))
+                n += 1
+            else:
+                new_fields.append((fn, ft))
+        t.fields = new_fields
+    return n
+
+
 VARIANT_NAMES = ["None", "Default", "New", "Null", "True", "False", "Class", "Delete", "Int", "Double", "Void", "Static", "Namespace", "Template", "Typename",
                  "Auto", "Register", "Signed", "Unsigned", "Short", "Long", "Char", "Float", "Union", "Volatile", "Inline", "Restrict", "Sizeof", "Goto", "Operator",
                  "This", "Friend", "Virtual", "Export", "Import", "Typeof", "Var", "Let", "Function", "Yield", "Await", "Async", "With", "In", "Of", "Instanceof",
